@@ -9,6 +9,7 @@ import (
 	"bytes"
 	"crypto/sha256"
 	"encoding/hex"
+	"errors"
 	"fmt"
 	"hash/crc32"
 	"io"
@@ -56,7 +57,6 @@ func (c chunkReader) Read(p []byte) (int, error) {
 	}
 	return c.r.Read(p)
 }
-
 
 // logNew records what mi reports about b for piece length plarg.
 func logNew(c *eng.Ctx, via string, plarg int64, b blob, mi *core.MetaInfo, err error) {
@@ -146,6 +146,13 @@ func roundTrip(c *eng.Ctx, mi *core.MetaInfo, viaTM bool) {
 // generators runs every generator of core on (b, pl).
 func generators(c *eng.Ctx, rng *rand.Rand, b blob, pl int64, all bool) *core.MetaInfo {
 	c.W.Ev("SetPL", "pl", int(pl))
+	if len(b.data) > 0 && pl > 0 && (all || rng.Intn(3) == 0) {
+		// a generation whose stream dies with an I/O error somewhere inside the blob (mostly inside a piece) must fail
+		// and must leave nothing behind that taints the generations that follow
+		at := rng.Intn(len(b.data))
+		_, ferr := core.NewMetaInfo(b.d, io.MultiReader(bytes.NewReader(b.data[:at]), iotest.ErrReader(errors.New("stream died"))), pl)
+		c.W.Ev("NewFail", "at", at, "ok", ferr == nil)
+	}
 	mi, err := core.NewMetaInfo(b.d, bytes.NewReader(b.data), pl)
 	logNew(c, "stream", pl, b, mi, err)
 	if all || rng.Intn(2) == 0 {
